@@ -200,6 +200,9 @@ def _const_bool(rv):
     return None
 
 
+_CORE_ENUMS = {"core::ops::control_flow::ControlFlow", "core::option::Option", "core::result::Result"}
+
+
 def thread_bools(m):
     """Jump threading for boolean results of inlined predicates: a block that stores a constant into a local and then
     falls (through copy-only blocks) into `switch` on that local (or on its negation) jumps straight to the selected
@@ -210,6 +213,7 @@ def thread_bools(m):
         if pb.get("cleanup") or pb["t"].get("k") != "goto":
             continue
         known = {}
+        variants = {}
         for st in pb["s"]:
             if st.get("k") == "assign" and not st["lhs"].get("p"):
                 v = _const_bool(st["rv"])
@@ -217,10 +221,18 @@ def thread_bools(m):
                     known[st["lhs"]["l"]] = v
                 else:
                     known.pop(st["lhs"]["l"], None)
-        if not known:
+                # a freshly built value of a two-variant core enum (the result of an inlined helper that reports through
+                # ControlFlow / Option / Result): its discriminant is the variant's index
+                rv_ = st["rv"]
+                if rv_.get("k") == "agg" and rv_.get("agg") == "adt" and rv_.get("adt") in _CORE_ENUMS and isinstance(rv_.get("vi"), int):
+                    variants[st["lhs"]["l"]] = rv_["vi"]
+                else:
+                    variants.pop(st["lhs"]["l"], None)
+        if not known and not variants:
             continue
         cur = pb["t"]["t"]
         env = dict(known)
+        ints = {}
         target = None
         chain = []
         for _ in range(6):
@@ -241,6 +253,10 @@ def thread_bools(m):
                     env[l] = 1 - env[rv["a"]["l"]]
                 elif _const_bool(rv) is not None:
                     env[l] = _const_bool(rv)
+                elif rv.get("k") == "discr" and not rv["place"].get("p") and rv["place"]["l"] in variants:
+                    ints[l] = variants[rv["place"]["l"]]
+                elif rv.get("k") == "use" and rv["a"].get("k") in ("copy", "move") and not rv["a"].get("p") and rv["a"]["l"] in variants:
+                    variants[l] = variants[rv["a"]["l"]]
                 else:
                     ok = False
                     break
@@ -253,6 +269,12 @@ def thread_bools(m):
             if t.get("k") == "switch" and t.get("discr_ty") == "bool" and t["discr"].get("k") in ("copy", "move") and not t["discr"].get("p") \
                     and t["discr"]["l"] in env:
                 v = env[t["discr"]["l"]]
+                target = t["otherwise"]
+                for val, tb in t["targets"]:
+                    if val == v:
+                        target = tb
+            elif t.get("k") == "switch" and t["discr"].get("k") in ("copy", "move") and not t["discr"].get("p") and t["discr"]["l"] in ints:
+                v = ints[t["discr"]["l"]]
                 target = t["otherwise"]
                 for val, tb in t["targets"]:
                     if val == v:
